@@ -171,7 +171,7 @@ func c13Binding(c *C) {
 		}
 		var res [2]execResult
 		for e, cv := range []string{cvA, cvB} { // the same compiled template, two contexts
-			out, xerr := tpl.Execute(c13Ctx(cv))
+			out, xerr := execSpread(tpl, c13Ctx(cv), uint64(e)+hashStr(vname))
 			c.Eval(1)
 			res[e] = execResult{out, errStr(xerr)}
 			var want strings.Builder
